@@ -10,6 +10,8 @@ Case kinds
               ["back"] continues from the source object of the latest step (see plan()).  Model op and oracle see
               only the arrays of the spectrum a step is applied to and the step's arguments, so anything a call
               remembers on an object (or hands on through copy()) and lets influence a later answer shows up.
+              Optional arguments may be LEFT OUT of a call (peaks: 5th element, pipeline: 7th element {"omit": [...]},
+              with_spectrum: block count None); model and oracle are then given the documented default (DOC_*).
 """
 import itertools
 import math
@@ -197,6 +199,34 @@ def psd_of(x, fs, ws, ndim=1):
 
 def psd_op(x, fs, ws, ndim=1):
     return f"c10.psd {ndim} {enc_float(fs)} {'N' if ws is None else enc_float(ws)} {floatlist(x)}"
+
+
+# Arguments a caller may leave out take the values the signatures / docstrings document ("Default: 2000.", "The default
+# is 1.0", "Default is 20.0", fit_range=(1e2, 23e3), with_spectrum(..., num_points_per_block=1)).  A step that lists a name
+# under "omit" is CALLED WITHOUT that argument; model and oracle are given the documented value.
+DOC_FIT_RANGE = (1e2, 23e3)
+DOC_BLOCK = 2000
+DOC_BASELINE = 1.0
+DOC_CUTOFF = 20.0
+DOC_WITHSPEC_NPPB = 1
+_omitted = {}
+
+
+def pipeline_args(st):
+    """(lo, hi, ranges, k, opts) of a pipeline step; opts = {"omit": [names left out of the call], "data": how the
+    data argument is handed over ("list", "2d", "0d": not a one-dimensional numpy array)}"""
+    opts = st[6] if len(st) > 6 and isinstance(st[6], dict) else {}
+    omit = opts.get("omit", [])
+    lo, hi = DOC_FIT_RANGE if "fit_range" in omit else (st[1], st[2])
+    k = DOC_BLOCK if "num_points_per_block" in omit else st[4]
+    rs = [] if "excluded_ranges" in omit else [(a, b) for a, b in st[3]]
+    return lo, hi, rs, k, opts
+
+
+def peaks_args(st):
+    """(table, baseline, cutoff, omit) of an identify_peaks step"""
+    omit = st[4] if len(st) > 4 and isinstance(st[4], list) else []
+    return st[1], (DOC_BASELINE if "baseline" in omit else st[2]), (DOC_CUTOFF if "peak_cutoff" in omit else st[3]), omit
 
 
 EPS_TIE = 1e-12  # a normalised power within this (relative) of a threshold is within rounding of it
@@ -393,18 +423,40 @@ def run_chain(case):
                 ps = ps.downsampled_by(k)
                 answers.append(show_ps(ps))
             elif kind == "pipeline":
-                # calculate_power_spectrum on the source data; the model runs on the raw spectrum's doubles
-                lo, hi, rs, k = st[1], st[2], [(a, b) for a, b in st[3]], st[4]
+                # calculate_power_spectrum on the source data; the model runs on the raw spectrum's doubles.  Arguments
+                # listed under "omit" are left out of the call (the documented defaults apply, pipeline_args)
+                lo, hi, rs, k, opts = pipeline_args(st)
+                omit = opts.get("omit", [])
                 f_in, p_in = raw_f, raw_p
-                ops.append(f"c10.pipeline {enc_rat(lo)} {enc_rat(hi)} {enc_list(rs, lambda r: enc_rat(r[0]) + ':' + enc_rat(r[1]))} {k} {ratlist(f_in)} {ratlist(p_in)}")
+                data = np.array(src["x"], dtype=float)
+                how = opts.get("data")
+                if how is not None:
+                    # not a one-dimensional numpy array: the documented TypeError, before anything is computed
+                    data = {"list": lambda: [float(v) for v in src["x"]], "2d": lambda: data.reshape(1, -1), "0d": lambda: np.array(float(src["x"][0]))}[how]()
+                    ops.append(f"c10.pipelinearg {0 if how == 'list' else 1} {0 if how == '0d' else 2 if how == '2d' else 1}")
+                else:
+                    ops.append(f"c10.pipeline {enc_rat(lo)} {enc_rat(hi)} {enc_list(rs, lambda r: enc_rat(r[0]) + ':' + enc_rat(r[1]))} {k} {ratlist(f_in)} {ratlist(p_in)}")
+                kw = {}
+                if "fit_range" not in omit:
+                    kw["fit_range"] = (lo, hi)
+                if "num_points_per_block" not in omit:
+                    kw["num_points_per_block"] = k
+                if "excluded_ranges" not in omit:
+                    kw["excluded_ranges"] = rs if rs or st[5] else None
+                for name in omit:
+                    _omitted["pipeline." + name] = _omitted.get("pipeline." + name, 0) + 1
                 with warnings.catch_warnings():
                     warnings.simplefilter("ignore")
-                    ps = lk.calculate_power_spectrum(np.array(src["x"], dtype=float), src["fs"], fit_range=(lo, hi), num_points_per_block=k, excluded_ranges=rs if rs or st[5] else None)
-                answers.append(show_ps(ps))
+                    ps = lk.calculate_power_spectrum(data, src["fs"], **kw)
+                answers.append("accepted" if how is not None else show_ps(ps))
             elif kind == "withspec":
                 m, nppb = st[1], st[2]
-                ops.append(f"c10.withspec {len(p_in)} {m} {nppb}")
-                ps = ps.with_spectrum(np.ones(m), nppb)
+                ops.append(f"c10.withspec {len(p_in)} {m} {DOC_WITHSPEC_NPPB if nppb is None else nppb}")
+                if nppb is None:  # left out of the call: the documented default (an unblocked spectrum)
+                    _omitted["with_spectrum.num_points_per_block"] = _omitted.get("with_spectrum.num_points_per_block", 0) + 1
+                    ps = ps.with_spectrum(np.ones(m))
+                else:
+                    ps = ps.with_spectrum(np.ones(m), nppb)
                 answers.append(f"{int(ps.num_points_per_block)} {len(ps.power)}")
             elif kind == "binwidth":
                 recipe = recipes[src_obj]
@@ -414,11 +466,18 @@ def run_chain(case):
             elif kind == "peaks":
                 recipe = recipes[src_obj]
                 path = paths[src_obj]
-                table, baseline, cutoff = st[1], st[2], st[3]
+                table, baseline, cutoff, omit = peaks_args(st)
                 tab = np.array(table, dtype=float)
                 failed = None
+                kw = {}
+                if "peak_cutoff" not in omit:
+                    kw["peak_cutoff"] = cutoff
+                if "baseline" not in omit:
+                    kw["baseline"] = baseline
+                for name in omit:
+                    _omitted["identify_peaks." + name] = _omitted.get("identify_peaks." + name, 0) + 1
                 try:
-                    res = ps.identify_peaks(lambda f: tab, peak_cutoff=cutoff, baseline=baseline)
+                    res = ps.identify_peaks(lambda f: tab, **kw)
                     ans = enc_list(res, lambda r: enc_rat(float(r[0])) + ":" + enc_rat(float(r[1])))
                 except Exception as e:
                     failed = e
@@ -783,7 +842,10 @@ def oracle_step(st, state, ans, ctx):
         return None, ([a for a, _ in keep], [b for _, b in keep], nppb)
     if kind in ("block", "pipeline"):
         if kind == "pipeline":
-            lo, hi, rs, k = F(st[1]), F(st[2]), [(F(a), F(b)) for a, b in st[3]], st[4]
+            lo, hi, rs, k, opts = pipeline_args(st)  # arguments left out of the call: the documented defaults
+            if opts.get("data") is not None:
+                return (_STOP if ans == "TypeError" else f"calculate_power_spectrum: data that is not a one-dimensional numpy array: expected TypeError, got {ans[:40]}"), state
+            lo, hi, rs = F(lo), F(hi), [(F(a), F(b)) for a, b in rs]
             f, p = ctx["raw"]
             keep = [(a, b) for a, b in zip(f, p) if lo < a <= hi and not any(l <= a < h for l, h in rs)]
             f, p = [a for a, _ in keep], [b for _, b in keep]
@@ -809,7 +871,7 @@ def oracle_step(st, state, ans, ctx):
             return f"{kind}: num_points_per_block={t[2]}, expected {nppb}*{k}", state
         return None, (gf, gp, nppb * k)
     if kind == "withspec":
-        m, nn = st[1], st[2]
+        m, nn = st[1], (DOC_WITHSPEC_NPPB if st[2] is None else st[2])
         if m != len(p):
             return (_STOP if ans == "ValueError" else "with_spectrum accepted a vector of the wrong length"), state
         if ans != f"{nn} {m}":
@@ -831,7 +893,7 @@ def oracle_step(st, state, ans, ctx):
 def oracle_peaks(st, state, ans):
     """the clause identify_peaks violates, None, or _STOP where the call raises (as it must) and the chain ends"""
     f, p, nppb = state
-    table, baseline, cutoff = st[1], st[2], st[3]
+    table, baseline, cutoff, _ = peaks_args(st)
     if nppb != 1 or cutoff <= baseline or baseline < 0:
         return _STOP if ans == "ValueError" else f"identify_peaks: expected ValueError, got {ans[:60]}"
     if len(table) != len(p):
@@ -910,7 +972,7 @@ def oracle_chain(case, ia):
                 and [tuple(F(v) for v in r) for r in st[1]] == _pairs(last_pk[2]):
             # the ranges identify_peaks returned, handed to the exclusion: no bin above the cut-off survives
             f0, p0, _ = states[src_state]
-            pst = last_pk[1]
+            pst = [None] + list(peaks_args(last_pk[1])[:3])
             flat = peaks_flat(f0, p0, pst[1], pst[2], pst[3], last_pk[2])
             if all(f0[i] < f0[i + 1] for i in range(len(f0) - 1)):
                 kept = set(state[0])
@@ -1133,6 +1195,21 @@ def gen_ranges(rng, fr, maxn=3):
     return rs
 
 
+LEVELS20 = [0.96875, 1.0, 2.0, 20.0, 20.5]  # five levels close around the documented defaults (baseline 1, cut-off 20)
+EDGE_DELTAS = [0.0, 1e-3, -1e-3, 1e-9, -1e-9, 0.05, -0.05]
+
+
+def fs_for_edge(n, k, edge, delta):
+    """a sample rate that puts bin k of an n-point spectrum on (delta = 0) or beside a given frequency"""
+    return edge * (1.0 + delta) * n / k
+
+
+def gen_fs_default_range(rng, n):
+    """sample rates for calls that leave fit_range out: bins on / just beside an edge of the documented default
+    (100, 23000], or anywhere"""
+    if n >= 2 and rng.chance(0.7):
+        return fs_for_edge(n, rng.randint(1, n // 2), rng.choice(DOC_FIT_RANGE), rng.choice(EDGE_DELTAS))
+    return rng.choice([78125.0, 50000.0, 12800.0, 2000.0, rng.loguniform(300.0, 1e5)])
 LEVELS = [0.25, 1.0, 2.0, 5.0, 7.0]  # below baseline, = baseline, between, = cut-off, above (baseline 1, cut-off 5)
 
 
@@ -1238,6 +1315,8 @@ def chain_steps(rng, fr, pw, data_src):
             steps.append(["withspec", len(cur) + rng.choice([0, 0, 0, 1, -1]) if len(cur) > 0 else 0, rng.randint(1, 5)])
             if rng.chance(0.5):
                 break
+            if rng.chance(0.4):
+                steps[-1][2] = None  # num_points_per_block left out of the call: the documented default 1
         else:
             break
         u = rng.randint(0, 19)
@@ -1304,6 +1383,51 @@ def small_scope(quick):
             yield {"stream": "small-scope", "op": "chain", "src": src, "steps": [["peaks", [1.0] * n, 1.0, 5.0]]}
             if n >= 2 and any(i == 4 for i in pat) and (n <= 5 or not quick):
                 yield {"stream": "small-scope", "op": "chain", "src": src, "steps": [["peaks", [1.0] * n, 1.0, 5.0], ["exclude", None, "from-peaks"]]}
+    # identify_peaks called WITHOUT baseline and / or peak_cutoff (documented defaults 1.0 and 20.0): every pattern of the
+    # five levels around the thresholds in force on up to 4 (5) bins
+    for n in range(1, (4 if quick else 5) + 1):
+        for pat in itertools.product(range(5), repeat=n):
+            src5 = {"freq": [0.5 * i for i in range(n)], "power": [LEVELS[i] for i in pat]}
+            src20 = {"freq": [0.5 * i for i in range(n)], "power": [LEVELS20[i] for i in pat]}
+            yield {"stream": "small-scope", "op": "chain", "src": src5, "steps": [["peaks", [1.0] * n, DOC_BASELINE, 5.0, ["baseline"]]]}
+            yield {"stream": "small-scope", "op": "chain", "src": src20, "steps": [["peaks", [1.0] * n, 1.0, DOC_CUTOFF, ["peak_cutoff"]]]}
+            yield {"stream": "small-scope", "op": "chain", "src": src20, "steps": [["peaks", [1.0] * n, DOC_BASELINE, DOC_CUTOFF, ["baseline", "peak_cutoff"]]]}
+    # with_spectrum called WITHOUT num_points_per_block (documented default 1: the new spectrum counts as unblocked, so
+    # identify_peaks accepts it) on unblocked, block averaged and injected blocked spectra
+    for n in range(2, 7):
+        src = {"freq": [float(i) for i in range(n)], "power": [float((i * 5) % 7 + 0.25) for i in range(n)]}
+        tab = lambda m: [0.125 if i % 3 == 1 else 1.0 for i in range(m)]  # noqa: E731  (ones / table: 8 > 5 at every third bin)
+        yield {"stream": "small-scope", "op": "chain", "src": src, "steps": [["withspec", n, None], ["peaks", tab(n), 1.0, 5.0]]}
+        yield {"stream": "small-scope", "op": "chain", "src": src, "steps": [["block", 2], ["withspec", n // 2, None], ["peaks", tab(n // 2), 1.0, 5.0]]}
+        yield {"stream": "small-scope", "op": "chain", "src": dict(src, nppb=3), "steps": [["withspec", n, None], ["peaks", tab(n), 1.0, 5.0, ["baseline"]]]}
+        yield {"stream": "small-scope", "op": "chain", "src": dict(src, nppb=3), "steps": [["withspec", n, 2], ["withspec", n, None], ["binwidth"]]}
+    # calculate_power_spectrum called WITHOUT fit_range / num_points_per_block / excluded_ranges (documented defaults
+    # (100, 23000], 2000, none): every subset of omitted arguments on a 16-point signal sampled at 50 kHz (bins 1..7 lie in
+    # the default fit range, the default block is larger than the spectrum) ...
+    subsets = [list(c) for r in (1, 2, 3) for c in itertools.combinations(["fit_range", "num_points_per_block", "excluded_ranges"], r)]
+    x16 = [float(((i * i * 3 + i) % 11) - 5) + (0.25 if i % 4 == 1 else 0.0) for i in range(16)]
+    fr16 = bin_freqs(16, 50000.0)
+    for omit in subsets:
+        for k in (1, 2):
+            for lo, hi in ((-1.0, 1e6), (fr16[1], fr16[-2])):
+                yield {"stream": "small-scope", "op": "chain", "src": {"x": x16, "fs": 50000.0},
+                       "steps": [["pipeline", lo, hi, [[fr16[2], fr16[4]]], k, True, {"omit": omit}]]}
+    # ... with sample rates that put every bin 1..8 of that signal on, and just beside, either edge of the default fit
+    # range (kept are the bins with 100 < f <= 23000) ...
+    for k in range(1, 9):
+        for edge in DOC_FIT_RANGE:
+            for delta in EDGE_DELTAS[:5]:
+                yield {"stream": "small-scope", "op": "chain", "src": {"x": x16, "fs": fs_for_edge(16, k, edge, delta)},
+                       "steps": [["pipeline", -1.0, 1e6, [], 1, False, {"omit": ["fit_range", "excluded_ranges"]}]]}
+    # ... and on signals long enough for the default block of 2000 bins to be filled: 4000 samples with only the block size
+    # left out (2001 bins, one block), 4400 samples at 50 kHz with every optional argument left out (2016 bins in the
+    # default fit range); thorough: two full blocks
+    big = [(4000, 78125.0, ["num_points_per_block"]), (4400, 50000.0, ["fit_range", "num_points_per_block", "excluded_ranges"])]
+    if not quick:
+        big += [(8002, 78125.0, ["num_points_per_block", "excluded_ranges"]), (4001, 1000.0 / 3.0, ["num_points_per_block"])]
+    for n, fs, omit in big:
+        xb = [float(((i * i * 3 + i) % 11) - 5) + (0.25 if i % 4 == 1 else 0.0) + 3.0 * math.cos(0.7 * i) for i in range(n)]
+        yield {"stream": "small-scope", "op": "chain", "src": {"x": xb, "fs": fs}, "steps": [["pipeline", -1.0, 1e9, [], 1, False, {"omit": omit}]]}
     # calculate_power_spectrum: one exclusion range between every pair of bin positions, block sizes 1..3
     n = 16 if quick else 24
     x = [float(((i * i * 3 + i) % 11) - 5) + (0.25 if i % 4 == 1 else 0.0) for i in range(n)]
@@ -1378,6 +1502,9 @@ def cases(tier, rng):
     yield {"stream": "malformed", "op": "chain", "src": src, "steps": [["inrange", 3.0, 1.0]]}
     yield {"stream": "malformed", "op": "chain", "src": src, "steps": [["exclude", [[3.0, 1.0]]]]}
     yield {"stream": "malformed", "op": "chain", "src": {"x": xs, "fs": 10.0}, "steps": [["pipeline", 0.0, 10.0, [], 0, False]]}
+    for how in ("list", "2d", "0d"):  # data that is not a one-dimensional numpy array: the documented TypeError
+        yield {"stream": "malformed", "op": "chain", "src": {"x": xs, "fs": 10.0}, "steps": [["pipeline", 0.0, 10.0, [], 1, False, {"data": how}]]}
+        yield {"stream": "malformed", "op": "chain", "src": {"x": xs, "fs": 10.0}, "steps": [["pipeline", 0.0, 10.0, [[1.0, 2.0]], 2, True, {"data": how, "omit": ["fit_range"]}]]}
 
     # ---- exhaustive small scope
     yield from small_scope(quick)
@@ -1444,6 +1571,16 @@ def cases(tier, rng):
                 lo, hi = hi, lo
             rs = gen_ranges(sub, fr, 2)
             steps = [["pipeline", lo, hi, rs, sub.choice([1, 2, 3, sub.randint(1, len(fr) + 1)]), sub.chance(0.5)]]
+            if sub.chance(0.25):
+                # arguments left out of the call (the documented defaults apply); a sample rate that puts bins into the
+                # default fit range when that one is left out
+                omit = sub.choice([["num_points_per_block"], ["fit_range"], ["excluded_ranges"], ["fit_range", "excluded_ranges"],
+                                   ["fit_range", "num_points_per_block", "excluded_ranges"]])
+                steps[0].append({"omit": omit})
+                if "fit_range" in omit:
+                    src["fs"] = gen_fs_default_range(sub, len(src["x"]))
+                    fr = bin_freqs(len(src["x"]), src["fs"])
+                    steps[0][3] = gen_ranges(sub, fr, 2)  # exclusion ranges aimed at the new axis
         else:
             # identify_peaks (optionally after in_range so that the grid does not start at 0)
             steps = []
@@ -1456,6 +1593,13 @@ def cases(tier, rng):
             steps.append(["peaks", None, baseline, cutoff])
             if sub.chance(0.5):
                 steps.append(["exclude", None, "from-peaks"])
+            if sub.chance(0.2):
+                # thresholds left out of the call: the documented defaults (baseline 1.0, peak_cutoff 20.0) apply; the
+                # other threshold stays as drawn (also the combinations the call must refuse)
+                omit = sub.choice([["baseline"], ["peak_cutoff"], ["baseline", "peak_cutoff"]])
+                pk = [st for st in steps if st[0] == "peaks"][0]
+                pk.append(omit)
+                pk[2], pk[3] = peaks_args(pk)[1:3]
         if which > 4 and fr and sub.chance(0.15):
             steps.append(["again"])  # the pipeline / peak identification a second time on the same object
         if rescale:
@@ -1480,7 +1624,8 @@ def _fill_peaks_tables(case):
                     ps = ps.in_range(prev[1], prev[2])
             rng = Rng(case.get("subseed", 0) * 7919 + 13)
             fr = [float(v) for v in ps.frequency]
-            st[1] = peaks_table(rng, [float(v) for v in ps.power], st[2], st[3], exact_ties_only=len(set(fr)) != len(fr))
+            _, b_, c_, _ = peaks_args(st)
+            st[1] = peaks_table(rng, [float(v) for v in ps.power], b_, c_, exact_ties_only=len(set(fr)) != len(fr))
 
 
 _impl0 = impl
@@ -1517,7 +1662,14 @@ RULE = (
     "every range with integer (thorough: half-integer) edges on integer axes of 2..7 (10) bins, k = 1..3 (4)), the "
     "step twice in a row / twice on the same object / on an object block averaged before, and re-exclusion together "
     "with every second range after blocks of two; "
-    "identify_peaks with model tables built so that power/model hits the five levels in runs. Non-trivial: the "
+    "identify_peaks with model tables built so that power/model hits the five levels in runs; calls that LEAVE OUT "
+    "optional arguments (model and oracle get the documented defaults): identify_peaks without baseline / peak_cutoff "
+    "(small scope: every pattern of five levels close around 1 and 20 on <= 4 (5) bins; 20% of the random peak chains), "
+    "with_spectrum without num_points_per_block (then identify_peaks / bin width), calculate_power_spectrum without any "
+    "subset of fit_range / num_points_per_block / excluded_ranges (16-point signal with sample rates putting each bin on, "
+    "1e-9 and 1e-3 beside either edge of the default (100, 23000]; 4000 / 4400-sample signals that fill the default "
+    "block of 2000; 25% of the random pipelines); malformed: data handed to calculate_power_spectrum as a list, 2-D or "
+    "0-D array (TypeError). Non-trivial: the "
     "signal is not constant (psd), or some step keeps at least one bin / reports a peak / raises."
 )
 
@@ -1576,6 +1728,7 @@ def extra_coverage(results):
         "window_kinds": windows,
         "peak_results": peaks,
         "private_names_reachable": dict(sorted(_reach.items())),
+        "calls_with_argument_left_out": dict(sorted(_omitted.items())),
         "steps_not_observable": sum(1 for r in results for a in r["impl"] if a == "?"),
         "dropped_for_margin": 0,
         "exhaustive": False,
